@@ -54,6 +54,7 @@ type c31Tracer struct {
 	lastErrOp string
 	diedInOp  bool
 	sawPanic  bool
+	budgetErrSeen bool
 	progSteps map[*EvalContext]int
 }
 
@@ -151,8 +152,10 @@ func (tr *c31Tracer) AfterOpcode(cx *EvalContext, err error) {
 		if strings.HasPrefix(msg, "panic in TEAL Eval") {
 			tr.sawPanic = true
 		}
-		if strings.Contains(msg, "dynamic cost budget exceeded") {
-			// the instruction must not have executed: stack and cost untouched
+		if strings.Contains(msg, "dynamic cost budget exceeded") && !tr.budgetErrSeen {
+			// The innermost frame that reports the error is where step refused the instruction (outer itxn_submit
+			// frames merely propagate it). That instruction must not have executed: stack and cost untouched.
+			tr.budgetErrSeen = true
 			same := len(cx.Stack) == f.stackLen && delta == 0
 			for i := 0; same && i < len(f.top) && i < len(cx.Stack); i++ {
 				a, b := f.top[i], cx.Stack[len(cx.Stack)-1-i]
@@ -321,6 +324,13 @@ func c31BuildEnv(s c31Src, v uint64) *c31Env {
 		if i == e.gi && e.mode == ModeApp {
 			tx.Txn.Type = protocol.ApplicationCallTx
 		}
+		if v < appsEnabledVersion && c31Pct(s, 90) {
+			// pre-v2 programs are only admitted to groups without rekeying and without app calls (minAvmVersion)
+			tx.Txn.RekeyTo = basics.Address{}
+			if !(i == e.gi && e.mode == ModeApp) {
+				tx.Txn.Type = []protocol.TxType{protocol.PaymentTx, protocol.AssetTransferTx, protocol.KeyRegistrationTx}[s.N(3)]
+			}
+		}
 		tx.Txn.Sender = c31SampleAddr(s.N(4))
 		if c31Pct(s, 50) {
 			tx.Txn.ApplicationID = apps[s.N(len(apps))]
@@ -361,7 +371,16 @@ func c31BuildEnv(s c31Src, v uint64) *c31Env {
 				tx.Txn.ForeignAssets = append(tx.Txn.ForeignAssets, assets[s.N(len(assets))])
 			}
 		}
-		if c31Pct(s, 60) {
+		if c31Pct(s, 55) { // every pool name of the called app is referenced: box ops reach the ledger
+			tx.Txn.Boxes = nil
+			for _, nm := range c31BoxNames {
+				tx.Txn.Boxes = append(tx.Txn.Boxes, transactions.BoxRef{Index: 0, Name: []byte(nm)})
+			}
+			for k := s.N(3); k > 0 && len(tx.Txn.ForeignApps) > 0; k-- {
+				tx.Txn.Boxes = append(tx.Txn.Boxes, transactions.BoxRef{Index: uint64(1 + s.N(len(tx.Txn.ForeignApps))),
+					Name: []byte(c31BoxNames[s.N(len(c31BoxNames))])})
+			}
+		} else if c31Pct(s, 60) {
 			tx.Txn.Boxes = nil
 			for k := s.N(4); k > 0; k-- {
 				nm := c31BoxNames[s.N(len(c31BoxNames))]
@@ -391,14 +410,17 @@ func c31BuildEnv(s c31Src, v uint64) *c31Env {
 			tx.Txn.Accounts, tx.Txn.ForeignApps, tx.Txn.ForeignAssets, tx.Txn.Boxes = nil, nil, nil, nil
 		}
 		// logicsig arguments
-		na := s.N(6)
-		if c31Pct(s, 2) {
-			na = []int{255, 256}[s.N(2)]
+		na := 3 + s.N(4)
+		if c31Pct(s, 15) {
+			na = s.N(3)
+		}
+		if s.N(200) == 0 {
+			na = []int{255, 255, 256}[s.N(3)]
 		}
 		for k := 0; k < na; k++ {
 			l := c31Len(s, 0, 64)
-			if c31Pct(s, 4) {
-				l = []int{4096, 4097}[s.N(2)]
+			if s.N(400) < 3 {
+				l = []int{4096, 4096, 4097}[s.N(3)]
 			}
 			if na > 10 {
 				l = s.N(3)
@@ -422,7 +444,7 @@ func c31BuildEnv(s c31Src, v uint64) *c31Env {
 	}
 	creator := c31SampleAddr(s.N(3))
 	for _, id := range append(apps, 5000) {
-		prog := append([]byte(nil), c31InnerPrograms[s.N(len(c31InnerPrograms))]...)
+		prog := append([]byte(nil), c31InnerProgram(s.N(len(c31InnerSources)), uint64(apps[s.N(len(apps))]))...)
 		params := basics.AppParams{
 			ApprovalProgram:   prog,
 			ClearStateProgram: []byte{byte(LogicVersion), 0x81, 0x01},
@@ -449,8 +471,8 @@ func c31BuildEnv(s c31Src, v uint64) *c31Env {
 		if c31Pct(s, 40) {
 			_ = l.SetFamilyBoxAccess(id, true)
 		}
-		if c31Pct(s, 60) {
-			l.NewAccount(id.Address(), []uint64{0, 1000, 1 << 30}[s.N(3)])
+		if c31Pct(s, 90) {
+			l.NewAccount(id.Address(), []uint64{1 << 30, 1 << 40, 100000, 1000, 0}[s.N(5)])
 		}
 		for k := s.N(3); k > 0; k-- {
 			key := c31Keys[s.N(len(c31Keys))]
@@ -462,7 +484,7 @@ func c31BuildEnv(s c31Src, v uint64) *c31Env {
 		}
 		for k := s.N(3); k > 0; k-- {
 			nm := c31BoxNames[s.N(len(c31BoxNames))]
-			sz := []uint64{0, 1, 10, 24, 100, 1000}[s.N(6)]
+			sz := []uint64{0, 1, 10, 24, 24, 10, 1, 100, 1000}[s.N(9)]
 			_ = l.NewBox(id, nm, make([]byte, sz), id.Address())
 		}
 		for k := s.N(3); k > 0; k-- {
@@ -495,17 +517,49 @@ func c31BuildEnv(s c31Src, v uint64) *c31Env {
 	return e
 }
 
-// small approval programs installed in the mock ledger's apps (targets of inner app calls)
-var c31InnerPrograms = [][]byte{
-	{byte(LogicVersion), 0x81, 0x01},                   // pushint 1
-	{6, 0x81, 0x01},                                    // v6 approve
-	{4, 0x81, 0x01},                                    // v4 approve
-	{3, 0x81, 0x01},                                    // too old for inner calls
-	{byte(LogicVersion), 0x81, 0x00},                   // reject
-	{byte(LogicVersion), 0x00},                         // err
-	{6, 0xb1, 0x81, 0x06, 0xb2, 0x10, 0x32, 0x08, 0xb2, 0x18, 0xb3, 0x81, 0x01}, // itxn_begin; int 6; itxn_field TypeEnum; global CurrentApplicationID; itxn_field ApplicationID; itxn_submit; int 1  (self re-entry / depth)
-	{byte(LogicVersion), 0x80, 0x02, 0x68, 0x69, 0xb0, 0x81, 0x01},                // log "hi"; int 1
-	{8, 0x80, 0x04, 0x73, 0x65, 0x6c, 0x66, 0x81, 0x0a, 0xb9, 0x48, 0x81, 0x01},   // box_create "self" 10; pop; int 1
+// small approval programs installed in the mock ledger's apps (targets of inner app calls); assembled once with the
+// package's assembler (set-up only, not part of the oracle). %d is replaced by the next app of a call chain.
+var c31InnerSources = []struct {
+	v   uint64
+	src string
+}{
+	{LogicVersion, "int 1"},
+	{6, "int 1"},
+	{4, "int 1"},
+	{3, "int 1"}, // too old to be called from an inner transaction
+	{LogicVersion, "int 0"},
+	{LogicVersion, "err"},
+	{LogicVersion, "itxn_begin; int appl; itxn_field TypeEnum; int %d; itxn_field ApplicationID; itxn_submit; int 1"},
+	{9, "itxn_begin; int appl; itxn_field TypeEnum; int %d; itxn_field ApplicationID; itxn_submit; int 1"},
+	{6, "itxn_begin; int appl; itxn_field TypeEnum; global CurrentApplicationID; itxn_field ApplicationID; itxn_submit; int 1"},
+	{LogicVersion, "byte 0x6869; log; int 1"},
+	{8, "byte 0x73656c66; int 10; box_create; pop; int 1"},
+	{LogicVersion, "int 0; top: int 1; +; dup; int 100000; <; bnz top; int 1"},
+	{LogicVersion, "byte 0x6b; int 7; app_global_put; int 1"},
+	{LogicVersion, "itxn_begin; int pay; itxn_field TypeEnum; itxn_submit; int 1"},
+}
+
+var c31InnerMu sync.Mutex
+var c31InnerCache = map[string][]byte{}
+
+func c31InnerProgram(k int, next uint64) []byte {
+	it := c31InnerSources[k%len(c31InnerSources)]
+	src := it.src
+	if strings.Contains(src, "%d") {
+		src = fmt.Sprintf(src, next)
+	}
+	key := fmt.Sprintf("%d|%s", it.v, src)
+	c31InnerMu.Lock()
+	defer c31InnerMu.Unlock()
+	if p, ok := c31InnerCache[key]; ok {
+		return p
+	}
+	p := []byte{byte(LogicVersion), 0x81, 0x01}
+	if ops, err := AssembleStringWithVersion(strings.ReplaceAll(src, "; ", "\n"), it.v); err == nil {
+		p = ops.Program
+	}
+	c31InnerCache[key] = p
+	return p
 }
 
 type c31Result struct {
